@@ -440,7 +440,7 @@ def _second_harness():
 
 def run(ctx):
     quick = ctx.tier == 'quick'
-    depth = 4 if quick else 5
+    depth = 5 if quick else 6
     st = explore.bfs(ctx, FACTORY, {'variant': 'base'}, max_depth=depth, ops_chunk=8)
     extra = []
     for v in ('deny-bus-errors', 'deny-bus-signals'):
